@@ -233,6 +233,25 @@ class Fake:
         return ret, bytes(m.packet), m
 
 
+def possible_mask(n, form):
+    """the text of /sys/devices/system/cpu/possible for n possible CPUs in
+    one of the notations the kernel's cpulist format allows"""
+    if n == 1 or form == 0:
+        return f"0-{n - 1}\n" if n > 1 else "0\n"
+    if form == 1:                   # two adjacent ranges
+        a = max(0, n // 3 - 1)
+        left = f"0-{a}" if a else "0"
+        right = f"{a + 1}-{n - 1}" if a + 1 < n - 1 else f"{n - 1}"
+        return f"{left},{right}\n"
+    if form == 2:                   # single numbers
+        return ",".join(str(i) for i in range(n)) + "\n"
+    # a hole in the numbering: n CPUs, numbered up to n
+    a = max(0, n // 2 - 1)
+    left = f"0-{a}" if a else "0"
+    right = f"{a + 2}-{n}" if a + 2 < n else f"{n}"
+    return f"{left},{right}\n"
+
+
 @contextmanager
 def fake(ncpu=4):
     f = Fake(ncpu)
@@ -284,7 +303,8 @@ def fake(ncpu=4):
 
     def fake_open(path, *args, **kwargs):
         if path == "/sys/devices/system/cpu/possible":
-            return io.StringIO(f"0-{f.ncpu - 1}\n" if f.ncpu > 1 else "0\n")
+            return io.StringIO(possible_mask(f.ncpu,
+                                             getattr(f, "possible_form", 0)))
         return open(path, *args, **kwargs)
     eb_arraymap.open = fake_open
     try:
